@@ -344,6 +344,16 @@ class Executor:
                 if c.parts and c.parts[0] == "items":
                     return z3.Or([x.z == i.z for i in c.parts[1]]) if c.parts[1] else z3.BoolVal(False)
                 return z3.Contains(c.z, z3.Unit(x.z))
+            if isinstance(c.t, Obj):
+                m = self.reg.find_method(c.t.cls, "__contains__")
+                if m is not None:
+                    outs = list(self.call_contract(m, [c, x], {}, st, None))
+                else:
+                    from .calls import MIXINS
+                    outs = list(MIXINS["__contains__"](self, c, [x], {}, st, None))
+                if len(outs) != 1:
+                    raise Untranslatable("`in` on object forks")
+                return self.truth(outs[0][0], st)
             if isinstance(c.t, List):
                 x = self.coerce(x, c.t.elt, st)
                 j = fresh("j", z3.IntSort())
@@ -447,6 +457,10 @@ class Executor:
                 return View(n, lambda i: self.valid_ref(st, Val(t.k, ks[i])), t.k, distinct=True)
             if isinstance(t, Opt):
                 return self.view_of(self.coerce(v, t.elt, st), st)
+            if isinstance(t, Obj):
+                c = self.reg.find_method(t.cls, "__iter__")
+                if c is not None and c.yields:
+                    return self.call_generator_view(c, [v], {}, st, None)
         raise Untranslatable(f"not iterable: {v!r}")
 
     def entails(self, st, z, ms=300):
@@ -651,6 +665,8 @@ class Executor:
                 rt = self.reg.opaque_attrs[(t.nm, name)]
                 f = z3.Function(f"attr_{t.nm}_{name}", t.sort(), rt.sort())
                 return Val(rt, f(obj.z))
+            if isinstance(t, Opt) and isinstance(t.elt, Tup) and t.elt.names and name in t.elt.names:
+                return self.attr(self.coerce(obj, t.elt, st), name, st, node)
             if isinstance(t, Tup) and t.names and name in t.names:
                 i = t.names.index(name)
                 return self.valid_ref(st, Val(t.elts[i], t.proj(obj.z, i)))
@@ -705,8 +721,12 @@ class Executor:
         yield from rec(0, st)
 
     def same_heap(self, a, b):
-        return all(a.heap.get(k) is b.heap.get(k) or (k in a.heap and k in b.heap and a.heap[k].eq(b.heap[k]))
-                   for k in set(a.heap) | set(b.heap)) or a.heap == b.heap
+        ini = self.heap.initial
+        for k in set(a.heap) | set(b.heap):
+            x, y = a.heap.get(k, ini.get(k)), b.heap.get(k, ini.get(k))
+            if x is None or y is None or not x.eq(y):
+                return False
+        return True
 
     def raise_pending_since(self, s):
         return False
